@@ -418,5 +418,27 @@ func main() {
 				boundary(fam+"-upper", u)
 			}
 		})
+
+		// (d) every byte value at every position of short valid names of every
+		// kind (both ends of each character range and their neighbours, which
+		// the one-representative-per-class alphabets above do not contain),
+		// then the same with two positions replaced by range ends.
+		bases := []string{"a", "ab", "a.b", "a.b.", "0.a", "a.0b", "a.b0", "9a.z9", "example.com", "a-b.c-d.ef", "1a.2b.c3",
+			"A.Example.ORG", "_svc._tcp.example.org", "_a.b", "_a._b.c", "a_b.example", "xn--e1afmkfd.xn--p1ai", "a.b.c.d.e"}
+		ends := []byte("09azAZ/:@[`{-._")
+		for _, base := range bases {
+			gen.ByteMutations(base, func(m string) { boundary("name-byte-mutations", m) })
+			for i := 0; i < len(base); i++ {
+				for j := i + 1; j < len(base); j++ {
+					for _, x := range ends {
+						for _, y := range ends {
+							b := []byte(base)
+							b[i], b[j] = x, y
+							boundary("name-range-ends", string(b))
+						}
+					}
+				}
+			}
+		}
 	})
 }
